@@ -128,9 +128,13 @@ class NestedEvent(Event):
         ordered_states = resolve_order(state_tree)
         done = set()
         event_data.event = self
+        scope = machine.get_global_name(join=False)
+        exited = event_data.__dict__.setdefault('exited_states', set())
         for state_path in ordered_states:
             state_name = machine.state_cls.separator.join(state_path)
-            if state_name not in done and state_name in self.transitions:
+            # a state which an earlier transition of this event has exited (and maybe entered again) had its chance
+            if state_name not in done and state_name in self.transitions \
+                    and machine.state_cls.separator.join(scope + state_path) not in exited:
                 event_data.state = machine.get_state(state_name)
                 event_data.source_name = state_name
                 event_data.source_path = copy.copy(state_path)
@@ -163,6 +167,7 @@ class NestedEventData(EventData):
         super(NestedEventData, self).__init__(state, event, machine, model, args, kwargs)
         self.source_path = None
         self.source_name = None
+        self.exited_states = set()
 
 
 class NestedState(State):
@@ -272,6 +277,9 @@ class NestedTransition(Transition):
         exit_partials = [partial(event_data.machine.get_state(root + state_name).scoped_exit,
                                  event_data, scope + root + state_name[:-1])
                          for state_name in resolve_order(exit_scope)]
+        event_data.__dict__.setdefault('exited_states', set()).update(
+            event_data.machine.state_cls.separator.join(scope + root + state_name)
+            for state_name in resolve_order(exit_scope))
 
         new_states, enter_partials = self._enter_nested(root, dst_name_path, scope + root, event_data)
 
